@@ -325,7 +325,15 @@ func (vc *VC) noteRef(name string, ref bool) {
 
 // refBound: every id stored in a reference-typed heap array was allocated before the point the array value was created.
 func (vc *VC) refBound(name, arr, alloc string) {
-	if !vc.refArr[name] || vc.dry {
+	if vc.dry {
+		return
+	}
+	if name == byteHeap {
+		// every cell of the byte heap holds a byte
+		vc.define(fmt.Sprintf("(forall ((r Int) (i Int)) (! (and (<= 0 (select (select %s r) i)) (<= (select (select %s r) i) 255)) :pattern ((select (select %s r) i))))", arr, arr, arr))
+		return
+	}
+	if !vc.refArr[name] {
 		return
 	}
 	sort := vc.arrays[name]
